@@ -522,23 +522,25 @@ func runLoops(a *Analyzer, r *Results) {
 		}
 		return false
 	}
+	// the forward to the worker is the send on the worker's hand-off channel, wherever it sits (in run itself or in a
+	// helper: effects carry the facts of the whole call path, parameters are bound to the caller's argument terms)
 	for _, e := range effs {
-		if e.Kind != "call" {
+		if e.Kind != "send" {
 			continue
 		}
-		switch {
-		case isForward(e, "interfaces.ElectionTrigger"):
+		switch e.VType {
+		case "interfaces.ElectionTrigger":
 			nEl++
 			ev := a.NewEval(e, r)
-			trig := ev.Arg(2)
+			trig := ev.Arg(0)
 			hv := Field(trig, "Hv")
 			target := Struct("state.HeightView", []string{"height", "view"}, []*Term{Field(hv, "height"), Bin("+", Field(hv, "view"), Const("1"))})
 			ev.Require("K9.election", props("C15", "C14"), "on an election trigger for (h,v) the main loop cancels everything older than (h,v+1) before forwarding, and forwards only if (h,v+1) is still issuable", "",
 				Done(Call("state.CancelOlderThan", vc, target)), ErrNil(Ext(1, Call("state.For", vc, target))))
-		case isForward(e, "leanhelix.blockWithProof"):
+		case "leanhelix.blockWithProof":
 			nSync++
 			ev := a.NewEval(e, r)
-			msg := ev.Arg(2)
+			msg := ev.Arg(0)
 			blk := Field(msg, "block")
 			// height of the synced block: 0 for nil, block.Height() otherwise  (phi resolved by case split)
 			okAny := false
@@ -549,7 +551,7 @@ func runLoops(a *Analyzer, r *Results) {
 				okH := hh.Key() == Bin("+", Call("interfaces.Height", blk), Const("1")).Key() || hh.Key() == Bin("+", Const("0"), Const("1")).Key() || hh.Key() == Const("1").Key()
 				if okH && Field(hvT, "view").Key() == Const("0").Key() && ev.Has(ErrNil(Ext(1, Call("state.For", vc, hvT)))) != nil {
 					okAny = true
-				} else {
+				} else if !okAny {
 					why = "cancel target is " + PP(hvT)
 				}
 			}
@@ -980,7 +982,15 @@ func runTimer(a *Analyzer, r *Results) {
 	stopSeen := false
 	nSkip := 0
 	for _, e := range effs {
-		if len(e.Path) != 1 {
+		// the arming sequence may sit in RegisterOnElection itself or in unexported helpers it calls (effects carry the
+		// facts of the whole call path); what Stop() does inside is judged by the Stop rules
+		inStop := false
+		for _, pe := range e.Path[1:] {
+			if strings.HasSuffix(pe.Fn, ".Stop") {
+				inStop = true
+			}
+		}
+		if inStop || (e.Kind == "return" && len(e.Path) != 1) {
 			continue
 		}
 		ev := a.NewEval(e, r)
